@@ -22,7 +22,7 @@ theorem mem_keys_union_iff {a b : Dom} {k : String} : k ∈ keys (a.union b) ↔
 
 section
 variable {K : Type} [Zero K] [Add K] [Sub K] [Mul K] [Div K] [Neg K] [OfScientific K]
-  [LT K] [DecidableLT K] [LE K] [DecidableLE K] [Transc K]
+  [LT K] [DecidableLT K] [LE K] [DecidableLE K] [Transc K] [Conj K]
 
 /-- **domain**: the keys read by the simplified operator are the keys of the original that are not constant -/
 theorem pe_keys (ck : List String) (cs : MVal K) (e : Ex K) :
@@ -92,6 +92,12 @@ theorem pe_keys (ck : List String) (cs : MVal K) (e : Ex K) :
   | quad d a iha => intro k; simp only [pe]; exact coll (.quad d a) (.quad d (pe ck cs a)) (fun _ _ => iha) k
   | gauss data icov a iha => intro k; simp only [pe]; exact coll (.gauss data icov a) (.gauss data icov (pe ck cs a)) (fun _ _ => iha) k
   | const en d v => intro k; simp [pe, keys, Ex.inDom]
+  | bil m na nb T a b iha ihb =>
+    intro k; simp only [pe]
+    exact coll (.bil m na nb T a b) (.bil m na nb T (pe ck cs a) (pe ck cs b)) (fun _ _ => bin a b _ _ iha ihb) k
+  | varcov n a b iha ihb =>
+    intro k; simp only [pe]
+    exact coll (.varcov n a b) (.varcov n (pe ck cs a) (pe ck cs b)) (fun _ _ => bin a b _ _ iha ihb) k
 end
 
 end NiftyVerif.C04
